@@ -329,6 +329,7 @@ def run_shard(spec, acc):
             for label, payload, nb, texts in variable_cases(dbx, d, rng, n_var):
                 judge_case(dbx, dec, d, label, payload, nb, acc, texts)
                 acc.cover("value_classes", label)
+            lookup_audit_variable(dbx, dec, d, rng, acc, audited)
             # also the fixed-position prefix under field classes
             fields = [f for f in d.fields if f.off is not None and f.bits is not None and f.match is None]
             base_cases = list(variable_cases(dbx, d, rng, 3))
@@ -393,6 +394,32 @@ def lookup_audit(dbx, dec, d, rng, acc, audited):
             raws = dict(base)
             raws[f.order] = v
             judge_case(dbx, dec, d, f"{f.id}:lookup_table_entry", dbx.pack(d, raws), nb, acc)
+            acc.count("lookup_table_entries_audited")
+        acc.cover("lookup_tables_audited", key[1])
+
+
+def lookup_audit_variable(dbx, dec, d, rng, acc, audited):
+    """Lookup tables that only variable-layout definitions use: the field position is taken from a concrete
+    generated payload (reference unpack), then every table entry is written there."""
+    base = next(iter(variable_cases(dbx, d, rng, 1)), None)
+    if base is None:
+        return
+    _, payload, nb, texts = base
+    for e in dbx.unpack(d, payload):
+        f = e["field"]
+        if f.bits is None or f.match is not None or e["kind"] not in ("lookup", "bitlookup"):
+            continue
+        if f.ftype == "LOOKUP":
+            key, values = ("L", f.lookup, f.bits), [v for v in dbx.lookups[f.lookup] if 0 <= v <= f.mask]
+        else:
+            key, values = ("B", f.bitlookup, f.bits), [1 << b for b in dbx.bitlookups[f.bitlookup] if b < f.bits]
+        if key in audited:
+            continue
+        audited.add(key)
+        at = e["bit_at"]
+        for v in values[:4000]:
+            p2 = (payload & ~(f.mask << at)) | (v << at)
+            judge_case(dbx, dec, d, f"{f.id}:lookup_table_entry", p2, max(nb, (p2.bit_length() + 7) // 8), acc, texts)
             acc.count("lookup_table_entries_audited")
         acc.cover("lookup_tables_audited", key[1])
 
